@@ -236,6 +236,9 @@ func run(env *Env, chk *Check, res *Result) (int, error) {
 			return 2, err
 		}
 	}
+	for k, v := range env.Counters {
+		res.Cov[k] += v
+	}
 	for _, k := range chk.Require {
 		if res.Cov[k] == 0 {
 			return 2, MachineryError{fmt.Sprintf("vacuity gate: coverage counter %q is 0 in this run", k)}
